@@ -145,6 +145,9 @@ SPECS = [{"alt": 525.0, "limb_frac": 0.33, "cone_deg": 3.0, "az_deg": 360.0},
          {"alt": 2000.0, "limb_frac": 0.1, "cone_deg": 80.0, "az_deg": 360.0, "dlat": np.pi / 2, "dlon": 1.0},
          {"alt": 36000.0, "limb_frac": 0.6, "cone_deg": 3.0, "az_deg": 90.0, "dlat": -np.pi / 2, "dlon": 0.0},
          {"alt": 525.0, "limb_frac": 0.05, "cone_deg": 10.0, "az_deg": 360.0, "dlat": 0.3, "dlon": 6.2},
+         {"alt": 525.0, "limb_frac": 0.33, "cone_deg": 3.0, "az_deg": 360.0, "dlat": float(np.radians(80.0)), "dlon": 0.7},
+         {"alt": 525.0, "limb_frac": 0.6, "cone_deg": 5.0, "az_deg": 360.0, "dlat": float(np.radians(-75.0)), "dlon": -2.0},
+         {"alt": 400.0, "limb_frac": 0.5, "cone_deg": 3.0, "az_deg": 360.0, "dlat": float(np.radians(88.5)), "dlon": 3.0},
          {"alt": 525.0, "limb_frac": 0.33, "cone_deg": 3.0, "az_deg": 0.0, "az_raw": "int3"},
          {"alt": 400.0, "limb_frac": 0.4, "cone_deg": 5.0, "az_deg": 0.0, "az_raw": "npint2", "dlat": 0.5, "dlon": 1.0}]
 
